@@ -37,6 +37,11 @@ def main():
         d = sdir / name
         meta = json.loads((d / "meta.json").read_text()) if (d / "meta.json").exists() else {}
         pid = meta.get("property", name.split("-")[0])
+        if meta.get("retired"):
+            results[name] = {"retired": meta["retired"]}
+            print(f"{name}: retired")
+            resfile.write_text(json.dumps(results, indent=1, sort_keys=True) + "\n")
+            continue
         check_ids = opts["checks"].split(",") if "checks" in opts else meta.get("checks", [pid])
         wt = Path(f"/dev/shm/verif-seedrun-{name}-{os.getpid()}")
         rc, out = sh(["git", "-C", "/repo", "worktree", "add", "-q", "--detach", str(wt), "HEAD"])
